@@ -442,6 +442,14 @@ pub fn run(ctx: &mut Ctx) {
         let st = refjson::Style { ws: 1, esc: 1, numvar: true };
         let text = refjson::to_text(&finite, &st, &mut rng, false);
         text_fallback(ctx, &text, "generated");
+        // white space the text parser skips in front of a value, other than a space: plain,
+        // form feed, and the escaped spellings its change log lists
+        {
+            let lead: &[u8] = *rng.pick(&[&b"\n"[..], b"\t", b"\r\n", b"\x0c", b"\\n", b"\\t", b"\\r", b"\\x0C", b"\n \t", b"\x0c\n"]);
+            let mut t = lead.to_vec();
+            t.extend_from_slice(&text);
+            text_fallback(ctx, &t, "leading-whitespace");
+        }
         for _ in 0..(if ctx.miri { 3 } else { 12 }) {
             let t = lookalike_text(&mut rng);
             text_fallback(ctx, &t, "header-lookalike");
